@@ -666,9 +666,9 @@ func eventMiddlewareMulti(handlers []string, chain string, frames []string, r *v
 }
 
 func scenarios(tier string) []*vx.Scenario {
-	b := 2
+	b := 3
 	if tier == "thorough" {
-		b = 3
+		b = 4
 	}
 	s := []*vx.Scenario{
 		concurrentConnects("concurrent/2-clients-one-rejected", 2, []bool{false, true}, b),
